@@ -11,7 +11,7 @@ from ..workloads import exprs as WE
 from ..workloads import text as WT
 
 MANIFEST = dict(
-    technique="runtime contracts on the util term functions (no exception on non-equation expressions, result types) + relational oracles over recorded results: permutation/regrouping invariance of has_like_terms, symmetry/reflexivity of terms_are_like, get_term_ex vs the written triple, make_term value law (exact evaluator) and round trip, factor() vs brute-force divisor pairs",
+    technique="runtime contracts on the util term functions (no exception on non-equation expressions, result types) + relational oracles over recorded results: permutation/regrouping invariance of has_like_terms, symmetry/reflexivity of terms_are_like (asked with nodes and with reused TermResult objects), get_term_ex vs the written triple, make_term value law (exact evaluator) and round trip, factor() vs brute-force divisor pairs",
     text="Each law is decided on generated inputs: sums of 2-6 terms in up to 24 orders x 3 groupings must give one has_like_terms answer; every ordered pair of term nodes must be judged symmetrically and every term reflexively; natural-order term texts over the full coefficient/variable/exponent grid must decompose to what was written; make_term of every such triple must evaluate to c*v^e at sampled points and decompose back; factor(n) must equal the brute-force divisor table for all n <= 20000 (thorough 200000) and sampled n <= 10^12; every monitored util call on nodes of non-equation expressions must not raise. Held on the inputs observed.",
     note="Trusts the exact evaluator and the brute-force divisor enumeration. 'Term' for reflexivity means a node for which get_term returns a result.",
     ref="DESIGN.md 3/C16",
@@ -25,7 +25,7 @@ RULE = (
 ASSUMPTIONS = ["triples: coefficient None and 1 are the same coefficient when a variable is present", "factor() bound 10^12 (float division is exact below 2^53)"]
 SHARDS = {"quick": 8, "thorough": 16}
 DEADLINE = {"quick": 50, "thorough": 420}
-REQUIRED = {"like:sums": 200, "like:arrangements": 2000, "alike:pairs": 3000, "alike:reflexive": 500, "termex:texts": 300, "maketerm:triples": 200,
+REQUIRED = {"like:sums": 200, "like:arrangements": 2000, "alike:pairs": 3000, "alike:term-result-pairs": 3000, "alike:reflexive": 500, "termex:texts": 300, "maketerm:triples": 200,
             "factor:n": 2000, "noraise:has_like_terms": 500, "noraise:get_sub_terms": 500, "noraise:is_preferred_term_form": 500,
             "like:answer:True": 50, "like:answer:False": 50, "alike:answer:True": 100}
 
@@ -79,7 +79,7 @@ def term_text(rng, two_vars=0.15):
     e = rng.choice(EXPS)
     t = f"{c}{v}{e}"
     if rng.random() < two_vars:
-        t += f" * {rng.choice(VARS)}{rng.choice(['', '^2'])}"
+        t += f" * {rng.choice([v, v, rng.choice(VARS)])}{rng.choice(['', '^2'])}"   # often the same variable again
     return t
 
 
@@ -181,6 +181,49 @@ def check_alike(rec, rng, root):
                            "summary": f"terms_are_like('{S.text_of(a)}', '{S.text_of(b)}') = {ab} but the other way round {ba} (in '{text}')"})
         else:
             rec.nontrivial(("alike", S.shadow(a), S.shadow(b)))
+
+
+def check_alike_results(rec, rng, root):
+    """the same relation asked with TermResult arguments (which the signature accepts): the
+    result objects are obtained once and then used in many questions, in both orders and against
+    themselves, the way a caller that analyses each term once would use them"""
+    import mathy_core.util as U
+
+    nodes = S.nodes_inorder(root)
+    if len(nodes) > 10:
+        nodes = rng.sample(nodes, 10)
+    terms = []
+    for n in nodes:
+        try:
+            t = U.get_term(n)
+        except Exception:
+            continue
+        if t is not False and t is not None:
+            terms.append((n, t))
+    if not terms:
+        return
+    text = S.text_of(root)
+    for round_ in range(2):
+        for (na, ta), (nb, tb) in itertools.product(terms, terms):
+            rec.ev()
+            rec.arm("alike:term-result-pairs")
+            try:
+                ab = bool(U.terms_are_like(ta, tb))
+                ba = bool(U.terms_are_like(tb, ta))
+                # the answer for the nodes themselves (fresh analysis on every call)
+                nn = bool(U.terms_are_like(na, nb))
+            except Exception:
+                continue
+            w = {"tree": S.to_json(S.shadow(root)), "a": S.text_of(na), "b": S.text_of(nb), "via": "TermResult"}
+            if ta is tb and not ab:
+                rec.violation("C16", "alike/not-reflexive", "a term is not like itself",
+                              dict(w, summary=f"terms_are_like(t, t) is False for t = get_term('{S.text_of(na)}') (in '{text}', question {round_ + 1})"))
+            elif ab != ba:
+                rec.violation("C16", "alike/asymmetric", "terms_are_like(a, b) differs from terms_are_like(b, a)",
+                              dict(w, summary=f"with a = get_term('{S.text_of(na)}'), b = get_term('{S.text_of(nb)}'): terms_are_like(a, b) = {ab}, (b, a) = {ba} (in '{text}')"))
+            elif ab != nn:
+                rec.violation("C16", "alike/result-vs-node", "terms_are_like answers differently for term results than for their nodes",
+                              dict(w, summary=f"terms_are_like on get_term results of '{S.text_of(na)}', '{S.text_of(nb)}' = {ab} but on the nodes = {nn} (in '{text}', question {round_ + 1})"))
 
 
 def num(txt):
@@ -356,6 +399,7 @@ def run(rec, cfg):
         if S.kind(root) == "Equal" or S.size(S.shadow(root)) > 80:
             continue
         check_alike(rec, rng, root)
+        check_alike_results(rec, rng, root)
         drive_predicates(rec, rng, root)
         if rng.random() < 0.01:
             rec.sample({"expression": text[:100]})
@@ -376,6 +420,7 @@ def replay(rec, cfg, w):
     elif "tree" in w:
         root = S.build(S.from_json(w["tree"]))
         check_alike(rec, rng, root)
+        check_alike_results(rec, rng, root)
         drive_predicates(rec, rng, root)
     elif "text" in w:
         t = w["text"]
